@@ -283,8 +283,8 @@ func Structures() []Entry {
 				"two":     {Labels: []*schema.LabelSchema{{Name: "l0"}, {Name: "l1", SemanticTokenModifiers: lang.SemanticTokenModifiers{"m1"}}}, Body: leaf(), MinItems: 1, MaxItems: 2},
 				"nobody":  {Labels: []*schema.LabelSchema{{Name: "l0"}}},
 				"depr":    {Body: leaf(), IsDeprecated: true, SemanticTokenModifiers: lang.SemanticTokenModifiers{"mdep"}},
-				"deep": {Body: &schema.BodySchema{Blocks: map[string]*schema.BlockSchema{
-					"mid": {Labels: []*schema.LabelSchema{{Name: "m"}}, Body: &schema.BodySchema{Blocks: map[string]*schema.BlockSchema{
+				"deep": {SemanticTokenModifiers: lang.SemanticTokenModifiers{"mdeep"}, Body: &schema.BodySchema{Blocks: map[string]*schema.BlockSchema{
+					"mid": {Labels: []*schema.LabelSchema{{Name: "m", SemanticTokenModifiers: lang.SemanticTokenModifiers{"mlabel"}}}, SemanticTokenModifiers: lang.SemanticTokenModifiers{"mmid"}, Body: &schema.BodySchema{Blocks: map[string]*schema.BlockSchema{
 						"leaf": {Body: leaf(), MaxItems: 2}}}}}}},
 			},
 		}
